@@ -697,10 +697,11 @@ pub fn plan_c13(thorough: bool) -> Plan {
             cases.push(case(seed, uni.clone(), &cfg, "all", ops, ndev.min(2), true));
         }
     }
+    cases.extend(crate::schedx::worker_schedule_cases(thorough));
     sort_by_bound(&mut cases);
     let mut p = Plan::new(
         cases,
-        "histx: deviation-bounded enumeration of the option space around the default configuration: every configuration with ≤1 (thorough ≤2) option moved to another menu value {commit_concurrency 2,3,5,16,64,65; warm_up; page cache 1 MiB; leaf cache 0/1 MiB; io_workers 2,3; hashtable_buckets 1000 (not a power of two), 65536; another bitbox seed; page_cache_upper_levels 0,1,3 with and without prepopulation; rollback on} × a fixed set of 6 multi-commit histories that span several workers' key ranges, the shared root page, the elision threshold from both sides (19- and 21-key clusters), overflow values, leaf and branch splits/merges, each with a mid-history reopen; every commit is witnessed; oracle: roots, values, proofs for every universe key, witness verification and update replay all equal the reference model (hence equal across configurations). The repository's loom tests of rw_pass_cell are run as a supplement by the thorough tier (see evidence).",
+        "histx: deviation-bounded enumeration of the option space around the default configuration: every configuration with ≤1 (thorough ≤2) option moved to another menu value {commit_concurrency 2,3,5,16,64,65; warm_up; page cache 1 MiB; leaf cache 0/1 MiB; io_workers 2,3; hashtable_buckets 1000 (not a power of two), 65536; another bitbox seed; page_cache_upper_levels 0,1,3 with and without prepopulation; rollback on} × a fixed set of 6 multi-commit histories that span several workers' key ranges, the shared root page, the elision threshold from both sides (19- and 21-key clusters), overflow values, leaf and branch splits/merges, each with a mid-history reopen; every commit is witnessed; oracle: roots, values, proofs for every universe key, witness verification and update replay all equal the reference model (hence equal across configurations). Thread interleavings of the internal workers: every schedule with ≤2 (thorough: all) preemptions of the three merkle update workers of one witnessed commit (worker start, publish child-page roots, hand back the write pass, root-page phase) under the controlled scheduler, two batches (updates / deletes incl. a root-page leaf).",
     );
     p.budget_s = if thorough { 1700 } else { 45 };
     p.assumptions = vec!["thread interleavings of the internal workers are those the OS scheduler produced in these runs plus the controlled schedules of the schedx engine (see C15 evidence); sequentially-consistent interleavings only".into()];
